@@ -149,8 +149,10 @@ class BaseTemplateMatcher(BasePickerModel):
         out = pool.compute()  # rotated templates
         templates = [o * mask for o in out]
         # One extra pixel so that the edge of the correlation landscape of each chunk
-        # lies outside the region the chunk is responsible for.
-        depth = tuple(np.ceil(np.array(templates[0].shape) / 2).astype(np.uint16) + 1)
+        # lies outside the region the chunk is responsible for. For an even size the
+        # landscape sits on half pixels and starts at (size + 1) / 2, so floor(size / 2)
+        # + 1 pixels would leave its first pixel inside the region.
+        depth = tuple((np.array(templates[0].shape) // 2 + 2).astype(np.uint16))
         return {"templates": templates}, depth
 
     def _index_to_quaternions(self, argmax_indices):
